@@ -22,6 +22,7 @@ func ruleClose1(c *Ctx) {
 	p := c.P
 	n := 0
 	onceN := 0
+	reviewedSeen := map[string]int{}
 	for _, f := range p.Funcs {
 		if strings.HasSuffix(p.Fset.Position(f.Body.Pos()).Filename, "testing.go") {
 			continue
@@ -101,6 +102,40 @@ func ruleClose1(c *Ctx) {
 				}
 			}
 			if reason, ok := reviewedSharedClose[rootName(f)+"|"+construct]; ok {
+				// a reviewed close is one site: the argument that it runs once does
+				// not cover a second close of the same channel in the function
+				reviewedSeen[rootName(f)+"|"+construct]++
+				if reviewedSeen[rootName(f)+"|"+construct] > 1 {
+					c.R.Violate("R-CLOSE1", p.Pos(call), f.Name, construct+" (second site)",
+						"the function closes this shared channel at more than one site; the reviewed exception covers a single close: whichever runs second panics (close of closed channel)", nil)
+					continue
+				}
+				// a pending slot's done channel is closed by whoever took the parked
+				// value out of the slot: the close must be dominated by a receive from
+				// the slot's value channel
+				if se, isSel := ast.Unparen(ch).(*ast.SelectorExpr); isSel && strings.HasSuffix(construct, "Pending.doneCh)") && node != nil {
+					base := exprStr(se.X)
+					taken := g.DominatedBy(node, func(m *Node) bool {
+						found := false
+						if m.Ast == nil {
+							return false
+						}
+						walkNoLit(m.Ast, func(x ast.Node) bool {
+							if u, ok := x.(*ast.UnaryExpr); ok && u.Op == token.ARROW {
+								if s2, ok := ast.Unparen(u.X).(*ast.SelectorExpr); ok && exprStr(s2.X) == base && s2.Sel.Name != se.Sel.Name {
+									found = true
+								}
+							}
+							return true
+						})
+						return found
+					})
+					if !taken {
+						c.R.Violate("R-CLOSE1", p.Pos(call), f.Name, construct+" after taking the parked value",
+							"the pending slot's done channel is closed on a path that did not take the parked value out of the slot: the party that later does take it closes it again (panic)", nil)
+						continue
+					}
+				}
 				c.R.Except("R-CLOSE1", p.Pos(call), f.Name, construct, reason)
 				continue
 			}
@@ -360,6 +395,84 @@ func ruleWG(c *Ctx) {
 		}
 		if !found {
 			c.R.Undecided("R-WG", start.Name, "reaper goroutine", "no goroutine calling runner.Wait found in Start")
+		}
+		// every goroutine that reads one of the runner's pipes is counted in the
+		// WaitGroup the reaper waits for: otherwise runner.Wait closes the pipe
+		// under the reader and the tail of the plugin's output is lost
+		const pipesDesc = "Client.pipesWaitGroup"
+		ci := p.Calls()
+		nPipes := 0
+		sg := p.Graph(start)
+		for _, cs := range ci.sites[start] {
+			if cs.Kind != "go" {
+				continue
+			}
+			// does this go statement consume a pipe? (argument of the call, or read inside the literal)
+			pipe := ""
+			isPipe := func(fn *Func, call *ast.CallExpr) string {
+				switch p.CalleeName(fn, call) {
+				case modPath + "/runner.Runner.Stdout":
+					return "stdout"
+				case modPath + "/runner.Runner.Stderr":
+					return "stderr"
+				}
+				return ""
+			}
+			for _, call := range callsIn(cs.Node.Ast) {
+				if k := isPipe(start, call); k != "" {
+					pipe = k
+				}
+			}
+			var bodies []*Func
+			for _, ce := range cs.Callees {
+				if ce != nil {
+					bodies = append(bodies, ce)
+				}
+			}
+			for _, b := range append([]*Func{}, bodies...) {
+				if b.Lit == nil {
+					continue
+				}
+				for _, call := range b.Calls() {
+					if k := isPipe(b, call); k != "" {
+						pipe = k
+					}
+					if ce := p.FnOf(asFunc(p.Callee(b, call))); ce != nil {
+						for _, a := range call.Args {
+							if ac, ok := ast.Unparen(a).(*ast.CallExpr); ok && isPipe(b, ac) != "" {
+								bodies = append(bodies, ce)
+							}
+						}
+					}
+				}
+			}
+			if pipe == "" {
+				continue
+			}
+			nPipes++
+			counted := false
+			for _, b := range bodies {
+				if p.doneIn(b, pipesDesc) {
+					counted = true
+				}
+			}
+			added := sg.DominatedBy(cs.Node, func(m *Node) bool {
+				for _, call := range callsIn(m.Ast) {
+					if p.CalleeName(start, call) == "sync.WaitGroup.Add" && p.wgDesc(start, call) == pipesDesc {
+						return true
+					}
+				}
+				return false
+			})
+			if counted && added {
+				c.R.Hold("R-WG", p.Pos(cs.Node.Ast), start.Name, pipe+" reader counted in the pipes WaitGroup", "Add dominates the go statement; the goroutine calls Done on every path", true)
+			} else {
+				c.R.Violate("R-WG", p.Pos(cs.Node.Ast), start.Name, pipe+" reader counted in the pipes WaitGroup",
+					"the goroutine reading the plugin's "+pipe+" pipe is not registered with the WaitGroup the reaper waits for before runner.Wait: Wait closes the pipe while unread output is still in it (lines lost, \"file already closed\")", nil)
+			}
+		}
+		if nPipes < 2 {
+			c.R.Undecided("R-WG", start.Name, "pipe readers", fmt.Sprintf("only %d goroutines reading runner.Stdout()/Stderr() found in Start, 2 expected", nPipes))
 		}
 	}
 }
